@@ -156,6 +156,8 @@ Inductive op :=
 | ODeleteRegionF (id : Z) (applied : bool)
 | OTick                        (* RegionStorage's timed background flush fires (3 s after the last save) *)
 | OCrashInFlush (written : bool) (* the process stops inside a flush: the leveldb batch write is atomic — all or nothing *)
+| OLoadOnceIntoCache           (* LoadRegionsOnce(CheckAndPutRegion) of a process whose cache is still empty: the start-up load;
+                                  later calls of the same process are skipped (region-storage mode) *)
 | OLoadOnceCorrupt (bad : Z).  (* LoadRegionsOnce while the stored value of region `bad` cannot be unmarshalled: the load
                                   fails at that item, after having delivered every region below it *)
 
@@ -216,6 +218,20 @@ Definition load_once (s : sstate) : sstate * obs :=
              end
       else collect_regions s.
 
+Definition load_into_cache (s : sstate) : sstate * obs :=
+      let rs := use_rs s in
+      let m := regions_of s rs in
+      let '(st, acc, m', c) := load_regions (faults_of s rs) check_and_put m [] in
+      (* every pruning delete went through kv.Remove: in region-storage mode it also dropped the pending entry *)
+      let s1 := set_regions s rs m' in
+      let s2 := if rs
+                then SS (stores s1) (lweight s1) (rweight s1) (base_r s1) (ldb s1)
+                        (filter (fun it => match lookup m (fst it), lookup m' (fst it) with
+                                           | Some _, None => false | _, _ => true end) (batch s1))
+                        (cache_size s1) (use_rs s1) (loaded_once s1) (budget s1)
+                else s1 in
+      (s2, BCache st acc (sort_by_id c) m').
+
 Definition run_op (s : sstate) (o : op) : sstate * obs :=
   match o with
   | OSaveStore id p =>
@@ -268,19 +284,15 @@ Definition run_op (s : sstate) (o : op) : sstate * obs :=
           else (* the error is returned; regionLoaded is set only after a successful load, so it stays 0 *)
                (s, BRegions RFailed (filter (fun p => fst p <? bad) m))
       end
-  | OLoadIntoCache =>
-      let rs := use_rs s in
-      let m := regions_of s rs in
-      let '(st, acc, m', c) := load_regions (faults_of s rs) check_and_put m [] in
-      (* every pruning delete went through kv.Remove: in region-storage mode it also dropped the pending entry *)
-      let s1 := set_regions s rs m' in
-      let s2 := if rs
-                then SS (stores s1) (lweight s1) (rweight s1) (base_r s1) (ldb s1)
-                        (filter (fun it => match lookup m (fst it), lookup m' (fst it) with
-                                           | Some _, None => false | _, _ => true end) (batch s1))
-                        (cache_size s1) (use_rs s1) (loaded_once s1) (budget s1)
-                else s1 in
-      (s2, BCache st acc (sort_by_id c) m')
+  | OLoadIntoCache => load_into_cache s
+  | OLoadOnceIntoCache =>
+      if use_rs s && loaded_once s then (s, BSkipped)
+      else let '(s', b) := load_into_cache s in
+           match b with
+           | BCache RDone _ _ _ =>
+               (if use_rs s' then SS (stores s') (lweight s') (rweight s') (base_r s') (ldb s') (batch s') (cache_size s') (use_rs s') true (budget s') else s', b)
+           | _ => (s', b)
+           end
   end.
 
 (* ------------------------------------------------------------------------------------------ *)
@@ -475,7 +487,8 @@ Fixpoint mon (w : want) (ops : list op) (obs_l : list obs) : option string :=
       | ODeleteRegionF id _, BUnit => mon (w_delete w id) r br
       | OTick, _ => mon (w_flush w) r br
       | OCrashInFlush _, _ => mon (w_crash w) r br
-      | OLoadIntoCache, BCache st loaded c after =>
+      | OLoadOnceIntoCache, BSkipped => mon w r br
+      | OLoadIntoCache, BCache st loaded c after | OLoadOnceIntoCache, BCache st loaded c after =>
           match st with
           | RDone =>
               match (if w_known w && negb (dirty w)
